@@ -17,6 +17,7 @@ KNOWN = [
     ("C11-P-write_bitpacked1-input-cursor", "C11", r"^write_bitpacked1\.input_cursor\[count>=1\]$"),
     ("C12-P-write_bitpacked1-input-cursor-leaves-buffer", "C12", r"^write_bitpacked1\.input_cursor_stays_in_buffer\[count>=1\]$"),
 ]
+MAX_REPLAYS = 8
 ROUNDTRIP = re.compile(r"^(bitpacked\.roundtrip\[|hybrid\.header_roundtrip|dict_index\.roundtrip\[|bitpacked1\.roundtrip)")
 
 
@@ -45,6 +46,7 @@ def p_encoders(ctx):
     results = E.run_all(ctx.tier, only={"rt", "rt_misc"} if only_roundtrip else None)
     known = [(fid, re.compile(rx)) for fid, prop, rx in KNOWN if prop == ctx.prop]
     in_region = {}
+    n_replayed = [0]
     for label, order, d, kinds, err, secs in results:
         if err:
             # the proof script failed on the current source: undecided, never a violation
@@ -75,7 +77,11 @@ def p_encoders(ctx):
             ctx.obligation(name, func, st, be, t, detail=detail, model=model if st == REFUTED else None,
                            sample=(st != PROVED or "payload_bits_are_spec" in name or "roundtrip" in name))
             if st == REFUTED:
-                confirmed, text, prog = E.replay(name, model or {}, REPO)
+                n_replayed[0] += 1
+                if n_replayed[0] <= MAX_REPLAYS:
+                    confirmed, text, prog = E.replay(name, model or {}, REPO)
+                else:
+                    confirmed, text, prog = False, f"native replay skipped (more than {MAX_REPLAYS} refuted obligations in this run)", None
                 ctx.violation(name, {"function": func, "model": model, "solver_output": str(model)[:600], "replay_result": text,
                                      "snippet": (prog + "\nVIOLATED = " + repr(confirmed)) if prog else None}, confirmed,
                               what=((detail or "") + " | native: " + text)[:400])
